@@ -73,6 +73,7 @@ class Summary:
         self.mut = {}  # param name -> {terminal (fq, stmt text, how): chain [str]}
         self.ret = set()  # origins ('P:x', 'STORED', 'F:attr') the return value / its elements may alias
         self.store = {}  # self attr -> set of origins stored there
+        self.cmut = {}  # label -> description: python container (dict/list) held under that label is mutated in place
         self.req = {}  # (param, terminal) -> {own param: bool} needed for the mutation to happen
         self.mut_labels = {}  # non-param origins mutated ('STORED', 'F:attr') -> {terminal: chain}
 
@@ -82,6 +83,7 @@ class Summary:
             tuple(sorted(self.ret)),
             tuple(sorted((k, tuple(sorted(v))) for k, v in self.store.items())),
             tuple(sorted((k, tuple(sorted(v))) for k, v in self.mut_labels.items())),
+            tuple(sorted(self.cmut)),
         )
 
 
@@ -498,6 +500,9 @@ class FnAnalysis:
         if base.dictlike or is_strkey:
             if base.o:
                 self.note("mapping parameter written: %s" % norm_stmt(st))
+                for lab in base.o:
+                    if lab.startswith(("G:", "F:")):
+                        self.summ.cmut.setdefault(lab, "%s: `%s`" % (self.fq, norm_stmt(st)[:80]))
             return
         if base.e and not base.arr:
             # python container of arrays
@@ -564,7 +569,13 @@ class FnAnalysis:
         if e is None:
             return FRESH
         if isinstance(e, ast.Name):
-            return env.get(e.id, FRESH)
+            if e.id in env:
+                return env[e.id]
+            # module-level mutable literal (dict / list / set): shared by every user of the module
+            gv = self.mod.assigns.get(e.id)
+            if isinstance(gv, (ast.Dict, ast.List, ast.Set)) and e.id not in ("__all__",):
+                return AV(o=["G:%s::%s" % (self.mod.relpath, e.id)], dictlike=False)
+            return FRESH
         if isinstance(e, ast.Constant):
             return FRESH
         if isinstance(e, ast.Attribute):
@@ -734,6 +745,8 @@ class FnAnalysis:
                 self.sink(recv.o, e, ".%s() works in place" % m)
             if m in CONTAINER_MUTATORS and recv.o and not recv.arr:
                 self.note("container parameter mutated by .%s(): %s" % (m, ast.unparse(e)[:80]))
+                for lab in recv.o:
+                    self.summ.cmut.setdefault(lab, "%s: `%s`" % (self.fq, " ".join(ast.unparse(e).split())[:80]))
                 if m in ("append", "extend", "insert") and isinstance(e.func.value, ast.Name):
                     pass
             if m in ("append", "extend", "insert") and isinstance(e.func.value, ast.Name) and args:
